@@ -147,7 +147,7 @@ def gen(seed, tier):
                     yield mk_case(2, [[0, 1]], [1], order, [], "and", 3, [t], "cancel-exh")
     # --- 3. named kernels: all loop orders, every tiling of one variable with every step, all placements
     rng = random.Random(seed)
-    reps = 2 if quick else 12
+    reps = 2 if quick else 30
     for name, (nv, ops, out) in NAMED.items():
         for rep in range(reps):
             n = rng.choice([2, 3, 4])
@@ -166,7 +166,7 @@ def gen(seed, tier):
                         yield mk_case(nv, [_perm(rng, r) for r in ops], out, order, tiles,
                                       rng.choice(STYLES), n, trees, name)
     # --- 4. random programs: random expression, order, tiling of any subset, style
-    nrand = 2500 if quick else 60000
+    nrand = 2500 if quick else 250000
     for i in range(nrand):
         nv, ops, out = rng.choice(exprs)
         n = rng.choice([2, 3, 3, 4, 5]) if nv < 3 else rng.choice([2, 3, 3, 4])
@@ -348,6 +348,18 @@ def py_content(tree, depth):
 def nontrivial(case, verdict):
     t = set(verdict.get("tags", []))
     return bool(t & {"nonzero", "cancel"}) and bool(t & {"coiter2", "coiter3", "populate"})
+
+
+def extra_evidence(results):
+    """input distribution: distinct programs (expression, loop order, tiling, style), per generator block"""
+    progs, blocks, exprs = set(), {}, set()
+    for c, _ in results:
+        e = (c["nvars"], tuple(tuple(sorted(o["ranks"])) for o in c["ops"]), tuple(c["out"]))
+        exprs.add(e)
+        progs.add((e, tuple(c["order"]), tuple(tuple(t) for t in c["tiles"]), c["style"]))
+        b = c["tag"] if c["tag"] in ("shape", "dot-exh", "ew-exh", "cancel-exh", "random") else "named"
+        blocks[b] = blocks.get(b, 0) + 1
+    return {"distinct_expressions": len(exprs), "distinct_programs": len(progs), "generator_blocks": blocks}
 
 
 def signature(case, verdict, failed):
